@@ -126,7 +126,7 @@ pub fn run(ctx: &Ctx) -> Result<(), String> {
     {
         let plans: Vec<(u8, usize, i32)> = ctx.tier.pick(
             vec![(1, 16, libc::SIGINT), (2, 32, libc::SIGTERM)],
-            vec![(1, 15, libc::SIGINT), (1, 16, libc::SIGINT), (1, 16, libc::SIGTERM), (1, 17, libc::SIGTERM), (1, 32, libc::SIGINT), (2, 31, libc::SIGINT), (2, 32, libc::SIGTERM), (2, 33, libc::SIGINT), (4, 64, libc::SIGINT)],
+            vec![(1, 15, libc::SIGINT), (1, 16, libc::SIGINT), (1, 16, libc::SIGTERM), (1, 17, libc::SIGTERM), (1, 32, libc::SIGINT), (2, 31, libc::SIGINT), (2, 32, libc::SIGTERM), (2, 33, libc::SIGINT)],
         );
         for (bs, k, sig) in plans {
             let scn = Scenario {
